@@ -143,6 +143,12 @@ func decodeProtobufSignDoc(signDocBytes []byte) (apitypes.TypedData, error) {
 		return apitypes.TypedData{}, errors.New("body contains unsupported fields: TimeoutHeight, ExtensionOptions, or NonCriticalExtensionOptions")
 	}
 
+	// The EIP-712 fee type only carries amount and gas: a fee payer or granter could not be represented and would be
+	// left outside the signature, so anybody could set or change them on an already signed transaction.
+	if authInfo.Fee != nil && (authInfo.Fee.Payer != "" || authInfo.Fee.Granter != "") {
+		return apitypes.TypedData{}, errors.New("auth info contains unsupported fields: fee Payer or Granter")
+	}
+
 	if len(authInfo.SignerInfos) != 1 {
 		return apitypes.TypedData{}, fmt.Errorf("invalid number of signer infos provided, expected 1 got %v", len(authInfo.SignerInfos))
 	}
